@@ -50,9 +50,23 @@ pub fn units(b: &[u8]) -> (Vec<Vec<u8>>, Vec<bool>) {
 
 fn token_record(case: i64, kind: &str, mode: &str, input: &[u8], toks: Option<Value>) -> Value {
     let (us, valid) = units(input);
+    // beyond the listed properties: the small accessors of DiffableStr on the same input
+    // [is_empty, len, ends_with_newline, as_str is Some, to_string_lossy == input (UTF-8 input)]
+    let acc = rec::guarded(|| {
+        if mode == "str" {
+            let s = std::str::from_utf8(input).unwrap();
+            json!([DiffableStr::is_empty(s), DiffableStr::len(s), DiffableStr::ends_with_newline(s), DiffableStr::as_str(s).is_some(),
+                   DiffableStr::to_string_lossy(s).as_bytes() == input, DiffableStr::as_bytes(s) == input])
+        } else {
+            json!([DiffableStr::is_empty(input), DiffableStr::len(input), DiffableStr::ends_with_newline(input),
+                   DiffableStr::as_str(input).is_some(), DiffableStr::to_string_lossy(input).as_bytes() == input,
+                   DiffableStr::as_bytes(input) == input])
+        }
+    });
     json!({"ev":"tokens","case":case,"kind":kind,"mode":mode,"input":bytes_json(input),
         "panic":toks.is_none(),"tokens":toks.unwrap_or(json!([])),
-        "units":Value::Array(us.iter().map(|u| bytes_json(u)).collect()),"valid":valid})
+        "units":Value::Array(us.iter().map(|u| bytes_json(u)).collect()),"valid":valid,
+        "acc":acc.unwrap_or(json!([]))})
 }
 
 pub fn emit_tokens(input: &[u8], out: &mut Out) {
